@@ -6,7 +6,7 @@ from multiprocessing import Pool
 from typing import Any, Union
 from warnings import warn
 
-from numpy import floating, integer, isfinite, isnan, nan, select
+from numpy import floating, integer, isfinite, nan, select
 from pandas import DataFrame, Series, isna, notna, unique
 from sklearn.base import BaseEstimator, TransformerMixin
 
@@ -762,11 +762,11 @@ class BaseDiscretizer(BaseEstimator, TransformerMixin):
         # checking for mode
         assert mode in ["group", "replace"], " - [Discretizer] Choose mode in ['group', 'replace']"
 
-        # checking for nans
-        if isnan(discarded_value):
+        # checking for nans (pandas.isna also accepts string values)
+        if isna(discarded_value):
             discarded_value = self.str_nan
             self.features_dropna[feature] = True
-        assert not isnan(
+        assert not isna(
             kept_value
         ), " - [Discretizer] missing values can only be grouped with an existing modality"
 
